@@ -40,12 +40,12 @@ theorem asI64_mod {x : Nat} (h : bits x < 64) : asI64 (x % W) = (x : Int) := by
   rw [Nat.mod_eq_of_lt (by unfold W; omega), asI64_small hx]
 
 /-- modulus 1, both operands below 64 bits: the returned cofactor of `n` is 0 or 1 -/
-theorem gcdStep_small_one {N : Nat} (hN : 0 < N) {n : Nat} (hn : 0 < n) (hb : bits n < 64) :
-    gcdStep N true (initSt n 1) = some (.ret 1 (if n = 1 then 1 else 0) (if n = 1 then 0 else 1)) := by
+theorem gcdStep_small_one {N K : Nat} (hK : 0 < K) {n : Nat} (hn : 0 < n) (hb : bits n < 64) :
+    gcdStep N K true (initSt n 1) = some (.ret 1 (if n = 1 then 1 else 0) (if n = 1 then 0 else 1)) := by
   have hn63 := lt_of_bits_lt_64 hb
   have hbn : bits n ≠ 0 := fun h0 => by have := bits_eq_zero.1 h0; omega
-  have c0 : chkB N 0 = some 0 := chkB_small hN (by omega) (by omega)
-  have c1 : chkB N 1 = some 1 := chkB_small hN (by omega) (by omega)
+  have c0 : chkB K 0 = some 0 := chkB_small hK (by omega) (by omega)
+  have c1 : chkB K 1 = some 1 := chkB_small hK (by omega) (by omega)
   have hW : (W : Int) = 18446744073709551616 := by simp [W]
   by_cases h1 : n = 1
   · subst h1
@@ -63,7 +63,7 @@ theorem gcdStep_small_one {N : Nat} (hN : 0 < N) {n : Nat} (hn : 0 < n) (hb : bi
 /-- modulus 1, `n` of at least 64 bits: the iteration is a quotient step that ends in
 `(x, y) = (1, 0)` with the row `(0, 1)` for `x` -/
 theorem gcdStep_big_one {N : Nat} {n : Nat} (hb : 64 ≤ bits n) {st : Step}
-    (h : gcdStep N true (initSt n 1) = some st) :
+    (h : gcdStep N K true (initSt n 1) = some st) :
     ∃ s', st = .next s' ∧ s'.x = 1 ∧ s'.y = 0 ∧ s'.A = 0 := by
   have hn2 : ¬ 1 ≥ n := by
     intro h1
@@ -75,7 +75,7 @@ theorem gcdStep_big_one {N : Nat} {n : Nat} (hb : 64 ≤ bits n) {st : Step}
   rw [if_neg (by omega), if_neg (by omega)] at h
   split at h
   · rename_i xtop ytop hxt hyt
-    have hfb : (fallbackStep N true { A := 1, B := 0, C := 0, D := 1, x := n, y := 1 }).map Step.next = some st := by
+    have hfb : (fallbackStep N K true { A := 1, B := 0, C := 0, D := 1, x := n, y := 1 }).map Step.next = some st := by
       split at h
       · exact h
       · rename_i hcond
@@ -107,22 +107,22 @@ theorem gcdStep_big_one {N : Nat} {n : Nat} (hb : 64 ≤ bits n) {st : Step}
 
 /-- an iteration in a state `(x, y) = (1, 0)` returns `(1, A, B)` -/
 theorem gcdStep_x1_y0 {N : Nat} {ext : Bool} {s : St} (hx : s.x = 1) (hy : s.y = 0) :
-    gcdStep N ext s = some (.ret 1 s.A s.B) := by
+    gcdStep N K ext s = some (.ret 1 s.A s.B) := by
   have hsw : swapSt s = s := by unfold swapSt; rw [if_neg (by omega)]
   unfold gcdStep
   simp only [hsw, hx, hy, bits_one]
   simp [bits]
 
 /-- modulus 1: the cofactor of `n` returned by the extended gcd is never negative -/
-theorem gcdLoop_one_nonneg {N : Nat} (hN : 0 < N) {n : Nat} (hn : 0 < n) :
-    ∀ (f : Nat) (d : Nat) (u v : Int), gcdLoop N true f (initSt n 1) = some (d, u, v) → 0 ≤ u := by
+theorem gcdLoop_one_nonneg {N K : Nat} (hK : 0 < K) {n : Nat} (hn : 0 < n) :
+    ∀ (f : Nat) (d : Nat) (u v : Int), gcdLoop N K true f (initSt n 1) = some (d, u, v) → 0 ≤ u := by
   intro f d u v h
   cases f with
   | zero => simp [gcdLoop] at h
   | succ f =>
     unfold gcdLoop at h
     by_cases hb : bits n < 64
-    · rw [gcdStep_small_one hN hn hb] at h
+    · rw [gcdStep_small_one hK hn hb] at h
       simp only [Option.some.injEq, Prod.mk.injEq] at h
       obtain ⟨_, rfl, _⟩ := h
       split <;> omega
